@@ -421,6 +421,7 @@ def run_case(case, keep=False):
             p.kill()
             out, err = p.communicate()
         log_at_exit = read_log(d) if case.get("snapshot_log_at_exit") else None
+        alive_at_exit = len(session_pids(p.pid)) if case.get("count_alive_at_exit") else None
         # wait for / kill stragglers of the session (background helpers run in their own groups)
         linger = case.get("linger")
         if linger is not None or timed_out:
@@ -445,6 +446,8 @@ def run_case(case, keep=False):
         }
         if log_at_exit is not None:
             res["log_at_exit"] = log_at_exit
+        if alive_at_exit is not None:
+            res["alive_at_exit"] = alive_at_exit
         if case.get("want_files", True):
             res["files"] = list_files(cwd)
         tp = os.path.join(d, "vh", "trace.ndjson")
